@@ -64,6 +64,24 @@ NEEDS.update({
  "C17-H": "fraction digits accumulated in a u128 with an off-by-one room check: 39+ fraction digits spelling 2^128 .. 2^128+3",
  "C18-H": "digit count from an integer approximation of log10(2) with 9 decimals: wrong for 10^8651 <= |n| < 2^28738 only (below 10^10000)",
  "C19-H": "set_scale narrows the gap to u8 before the range test: owned+owned / owned-owned with a scale gap in 256..275 (reached in a program only through operands carrying such scales)",
+ "C01-W": "hand-written One::is_one looks at the low 64-bit word of the coefficient only: multiplication by an operand 10^s + m*2^64*... whose low word equals that of 10^scale (product returned as the other operand)",
+ "C02-W": "bit-length pre-test of the scaled comparison uses a 2.30 fixed-point log2(10) rounded up: first wrong at scale gap 97879 (10^gap just below a power of two) with a power-of-two coefficient against its value-equal twin",
+ "C03-W": "hash_slice override shares the zero-padding scratch string between elements: a slice / Vec holding two decimals with different negative scales hashes differently from the element-wise hashes",
+ "C04-W": "divide-and-conquer digit parse of texts >= 2048 bytes takes the sign from the parsed upper half: negative value whose plain rendering starts with >= 1024 zeros (scale >= 2046, short coefficient) parses back positive",
+ "C05-W": "exponent-overflow error message quotes the last 64 BYTES of inputs longer than 64 bytes: panic when that offset falls inside a multi-byte character",
+ "C06-W": "machine-word fast path of with_scale_round casts the scale distance to u32: distance >= 2^32 with a coefficient below 2^64 rounds at the wrong place",
+ "C07-W": "i128 fast path of with_prec adds the half before dividing: coefficients within 5*10^k of +-2^127 overflow (panic or wrong digit)",
+ "C08-W": "digit count of the integer quotient through f64 log10: quotients of the form 10^k - d with k >= 16 counted one digit long, result has 99 digits / wrong rounding position",
+ "C09-W": "i128 fast path in &a % &b on aligned operands: i128::MIN % -1 overflows (panic)",
+ "C10-W": "Karatsuba-style integer root above 256 bits decides exactness with a bitwise OR that drops a term: radicands 2^n - 1 and neighbours flagged exact / root one low",
+ "C11-W": "staged cube root above 8192 bits: near-cubes needing more than one correction step, only reachable with >= 2467-digit operands or precision >= 819",
+ "C12-W": "reciprocal's new first guess reduces the divisor 19 digits at a time and the iteration is capped: divisors 19...9 whose length is 1 mod 19 converge to a wrong last digit",
+ "C14-W": "to_f64 estimates the digit count as bits*19/64 (under-estimate): decimals with >= 1913 digits return None / a wrong float",
+ "C15-W": "'all digits dropped' shortcut from a 1233/4096 digit-count bound: integers written with >= 205 fraction zeros (1.000...0) convert to 0",
+ "C16-W": "word-at-a-time count of trailing nines forgets the words already counted: {:.N} carry through a run of >= 8 nines ending at a word boundary",
+ "C17-W": "19-digit-word parser slices at byte offsets counted from the end: a multi-byte character straddling such an offset in a string token of more than 19 bytes panics",
+ "C19-W": "bit-length pre-test of the comparison uses log2(10) = 3.32193 (rounded up): after the accumulator has gathered a scale gap of 643 (1140, 1286, ...) against a power-of-two coefficient, == and cmp say Less for equal / greater values",
+ "C20-W": "u64 fast path of division for configured precision <= 38 rounds with the wrong digit budget: only builds with RUST_BIGDECIMAL_DEFAULT_PRECISION <= 38, small operands, quotient digits beyond the precision",
  "C20-H": "division truncates remainder and denominator when the denominator has more than P+20 digits: exact-tie quotients produced by the digit loop come out one unit low (1.25 at precision 2 with 25-digit operands)",
 })
 root = '/verif/seeded'
@@ -76,7 +94,7 @@ for d in sorted(os.listdir(root)):
     for f in glob.glob(os.path.join(p, 'detect_*.json')):
         j = json.load(open(f)); det[j['tier']] = {"detected": j['detected'], "exit_code": j['exit_code'], "violation_lines": j['violation_lines'], "first_violation": j['first_violation'].strip()[:300]}
     meta = {
-        "id": d, "breaks_property": d.split('-')[0], "origin": "independent sub-agent given only the property text and a scratch worktree" + (" (second wave: asked for changes designed to escape small-scope and constant-boundary enumeration)" if d.endswith("-H") else ""),
+        "id": d, "breaks_property": d.split('-')[0], "origin": "independent sub-agent given only the property text and a scratch worktree" + (" (second wave: asked for changes designed to escape small-scope and constant-boundary enumeration)" if d.endswith("-H") else " (second hard round: same brief as the -H round plus the list of mechanisms already used for this property, asked for a different site and a different mechanism)" if d.endswith("-W") else ""),
         "needs_to_manifest": NEEDS.get(d, ""),
         "confirmed_in_scratch_worktree": ver,
         "what_i_ran": ["tools/seed_ingest.sh (patch applies to /repo HEAD, repo suite with patch, demo with/without patch)", "tools/seed_run.sh <id> <tier> (git apply to /repo, ./check <prop> <tier>, git checkout -- .)"],
